@@ -180,6 +180,34 @@ def quantified_pow2_facts(hyps):
     return out
 
 
+def bit_facts(exprs, width=4):
+    from .ops import Bit
+    apps, seen = [], set()
+    stack = list(exprs)
+    while stack:
+        t = stack.pop()
+        if t.get_id() in seen:
+            continue
+        seen.add(t.get_id())
+        if z3.is_quantifier(t):
+            stack.append(t.body())
+        elif z3.is_app(t):
+            if t.decl().name() == "Bit" and t.num_args() == 2:
+                apps.append(t)
+            stack.extend(t.children())
+    vals = {}
+    for a in apps:
+        v = a.arg(0)
+        if _has_var(v):
+            continue
+        vals.setdefault(v.get_id(), v)
+    facts = []
+    for v in vals.values():
+        total = z3.Sum([z3.If(Bit(v, i), 2 ** i, 0) for i in range(width)])
+        facts.append(z3.Implies(z3.And(v >= 0, v < 2 ** width), v == total))
+    return facts
+
+
 def to_smt2(hyps, goal, want_axioms=None, extra=(), use_theories=True):
     s = z3.Solver()
     exprs = list(hyps) + [goal]
@@ -189,6 +217,8 @@ def to_smt2(hyps, goal, want_axioms=None, extra=(), use_theories=True):
         for f in pow2_instances(exprs):
             s.add(f)
         for f in quantified_pow2_facts(hyps):
+            s.add(f)
+        for f in bit_facts(exprs):
             s.add(f)
     for h in hyps:
         s.add(h)
@@ -240,6 +270,18 @@ def solve_one(job):
     if r == z3.sat:
         return key, "sat", "z3", time.time() - t0, _model_dict(s.model())
     reason = s.reason_unknown()
+    relaxed = None
+    try:
+        from .core import _has_quantifier
+        s2 = z3.Solver()
+        s2.set("timeout", 5000)
+        for a in s.assertions():
+            if not _has_quantifier(a):
+                s2.add(a)
+        if s2.check() == z3.sat:
+            relaxed = _model_dict(s2.model())
+    except z3.Z3Exception:
+        relaxed = None
     if use_cvc5 and os.path.exists(CVC5):
         t1 = time.time()
         with tempfile.NamedTemporaryFile("w", suffix=".smt2", delete=False) as f:
@@ -256,8 +298,9 @@ def solve_one(job):
         if ans == "unsat":
             return key, "unsat", "cvc5", time.time() - t0, None
         # a cvc5 'sat' carries no model we replay; keep it undecided unless z3 can confirm
-        return key, "unknown", "z3+cvc5", time.time() - t0, {"z3_reason": reason, "cvc5": ans, "cvc5_s": round(time.time() - t1, 2)}
-    return key, "unknown", "z3", time.time() - t0, {"z3_reason": reason}
+        return key, "unknown", "z3+cvc5", time.time() - t0, {"z3_reason": reason, "cvc5": ans, "cvc5_s": round(time.time() - t1, 2),
+                                                               "relaxed_model": relaxed}
+    return key, "unknown", "z3", time.time() - t0, {"z3_reason": reason, "relaxed_model": relaxed}
 
 
 def discharge(jobs, workers=None):
